@@ -420,13 +420,16 @@ def bytes_rule(ctx: Ctx) -> None:
     ok = bool(fe) and all(cfgG.exits_only_to(x, {last.id}, is_raise) for x in fe) and any(isinstance(cfgG.nodes[y].stmt, ast.Raise) for x in fe for y in cfgG._reachable(x, {last.id}))
     ctx.ob(G, last.stmt, ok, "a string that matches none of the accepted forms raises ValueError", sel="bytes:bad-string")
     fl_if = [n for n in cfg.stmts(ast.If) if "is_integer" in unparse(n.stmt.test)]
-    ctx.need(fl_if, "integrality test of convert_to_bytes not found")
+    if not fl_if:
+        # absence is a verdict only when the test cannot live in a private piece
+        elsewhere = [g_ for g_ in scope if g_ is not f and any(isinstance(x, ast.Attribute) and x.attr == "is_integer" for x in g_.own_nodes())]
+        ctx.need(not elsewhere, f"integrality test of convert_to_bytes lives in {', '.join(g_.name for g_ in elsewhere)} (not followed)")
     ok = False
     for n in fl_if:
         neg = isinstance(n.stmt.test, ast.UnaryOp) and isinstance(n.stmt.test.op, ast.Not)
         fe = cfg.edge_targets(n.id, "true" if neg else "false")
         ok = bool(fe) and all(cfg.exits_only_to(x, {n.id}, is_raise) for x in fe)
-    ctx.ob(f, fl_if[0].stmt, ok, "a non-integral number of bytes raises ValueError", sel="bytes:non-integral")
+    ctx.ob(f, fl_if[0].stmt if fl_if else f.node, ok, "a non-integral number of bytes raises ValueError" + ("" if fl_if else " — no `.is_integer()` test guards the conversion"), sel="bytes:non-integral")
     init = repo.get(f"{A.SPEC}.Spec.__init__")
     for p, attr in (("allowed_mem", "_allowed_mem"), ("reserved_mem", "_reserved_mem")):
         ok = False
